@@ -175,8 +175,11 @@ void JunctionRef::moveAttachedConns(const Point& newPosition)
     {
         ConnEnd *connEnd = *curr;
         COLA_ASSERT(connEnd->m_conn_ref != nullptr);
+        // This is an update caused by the junction moving, so it must not
+        // replace an update the user has queued for the same end.
+        bool connPinUpdate = true;
         m_router->modifyConnector(connEnd->m_conn_ref, connEnd->endpointType(),
-                *connEnd);
+                *connEnd, connPinUpdate);
     }
     for (ShapeConnectionPinSet::iterator curr = 
             m_connection_pins.begin(); curr != m_connection_pins.end(); ++curr)
